@@ -47,16 +47,16 @@ def run(chk):
     shards_h = []
     shards_h += common.stage_graph(
         chk, 'MC_Ops2', 'MC_Ops2.cfg' if q else 'MC_Ops2_deep.cfg',
-        ['a', 'b'], 2, limit=1500 if q else 40000,
+        ['a', 'b'], 2, limit=chk.th(1500, 40000),
         need_actions=['var', 'ite', 'apply', 'drop', 'gc', 'swap'])
-    hs = common.stage_histories(chk, ntraces=96 if q else 3000,
-                                steps=150 if q else 300,
+    hs = common.stage_histories(chk, ntraces=chk.th(96, 3000),
+                                steps=chk.th(150, 300),
                                 nvars_choices=[3, 4, 5])
     shards_h += hs
     shards_h += common.stage_histories(
-        chk, ntraces=16 if q else 400, steps=50 if q else 120,
+        chk, ntraces=chk.th(16, 400), steps=chk.th(50, 120),
         nvars_choices=[6, 7, 8], tag='wide')
-    shards_h += common.stage_histories(chk, ntraces=16 if q else 600, steps=10 if q else 40,
+    shards_h += common.stage_histories(chk, ntraces=chk.th(16, 600), steps=chk.th(10, 40),
                                        nvars_choices=[3, 4], profile='stream', tag='st')
     # ---- sweeps ----
     allsyms = sweep.SPEC_PROP_BINARY + sweep.SPEC_QUANT
